@@ -240,7 +240,7 @@ fn rate(r: (u32, u32)) -> f64 {
 
 pub fn umad_case(gk: GenomeKind, kind: UmadKind, a: (u32, u32), d: (u32, u32), g: usize, l: usize, m: u32, via: bool) -> (u64, u64, Option<(String, String)>, usize) {
     let label = format!("UMAD {kind:?} on {gk:?} a={}/{} d={}/{} generator size {g} parent length {l}", a.0, a.1, d.0, d.1);
-    let alpha = Alphabet::Grid(m);
+    let alpha = alphabet_of(m);
     let mut bad: Option<(String, String)> = None;
     let mut outs: BTreeSet<Vec<Gene>> = BTreeSet::new();
     let st = explore(
@@ -338,7 +338,7 @@ pub fn flip_case(fk: FlipKind, ool: bool, r: (u32, u32), l: usize, m: u32) -> (u
     let mut bad: Option<(String, String)> = None;
     let mut masks: BTreeSet<Vec<bool>> = BTreeSet::new();
     let st = explore(
-        |env| flip_once(fk, ool, r.0 as f32 / r.1 as f32, l, env, Alphabet::Grid(m)),
+        |env| flip_once(fk, ool, r.0 as f32 / r.1 as f32, l, env, alphabet_of(m)),
         |_, _, o| {
             let v = match o {
                 Err(p) => Some(("panic", format!("panicked: {p}"))),
@@ -367,6 +367,16 @@ pub fn flip_case(fk: FlipKind, ool: bool, r: (u32, u32), l: usize, m: u32) -> (u
     (st.leaves, st.choice_points, bad, masks.len())
 }
 
+/// `m` >= EXT encodes the alphabet Ext(m - EXT): the grid plus the two extreme words
+pub const EXT: u32 = 1000;
+pub fn alphabet_of(m: u32) -> Alphabet {
+    if m >= EXT {
+        Alphabet::Ext(m - EXT)
+    } else {
+        Alphabet::Grid(m)
+    }
+}
+
 pub enum Case {
     Flip(FlipKind, bool, (u32, u32), usize, u32),
     Umad(GenomeKind, UmadKind, (u32, u32), (u32, u32), usize, usize, u32, bool),
@@ -383,6 +393,13 @@ pub fn cases(quick: bool) -> Vec<Case> {
                 v.push(Case::Flip(fk, false, *r, l, m));
             }
             v.push(Case::Flip(fk, true, (1, l.max(1) as u32), l, l.max(1) as u32));
+            // every stream, including the extreme words 0 and all-ones
+            if l <= max_l {
+                for r in rates.iter().chain([(2u32, 1u32)].iter()) {
+                    v.push(Case::Flip(fk, false, *r, l, EXT + 2));
+                }
+                v.push(Case::Flip(fk, true, (1, l.max(1) as u32), l, EXT + l.max(1) as u32));
+            }
         }
     }
     for gk in [GenomeKind::Vector, GenomeKind::Plushy, GenomeKind::Bits] {
@@ -404,6 +421,9 @@ pub fn cases(quick: bool) -> Vec<Case> {
                                 continue;
                             }
                             v.push(Case::Umad(gk, kind, *a, *d, g, l, m, gk == GenomeKind::Vector && g == 1));
+                            if l <= 2 && m == 2 {
+                                v.push(Case::Umad(gk, kind, *a, *d, g, l, EXT + 2, false));
+                            }
                         }
                     }
                 }
@@ -452,7 +472,7 @@ pub fn run(run: &mut Run) {
     run.states = cs.len() as u64;
     run.traces_validated = run.evaluations;
     run.distinct_nontrivial = nontrivial;
-    run.rule = "WithRate / WithOneOverLength on Vec<TagBit>, Vector<TagBit>, Bitstring and through Mutate; Umad (new / new_with_empty_rate / new_without_empty) on Vector<Gene>, Plushy and Bitstring, through &, by value and through Mutate; all parent lengths 0..L, all lattice rates, all grid word sequences; structural oracle on every leaf (positions preserved, subsequence order, at most one insertion per parent position, provenance of new genes, boundary rates). non-trivial = scenarios with more than one distinct output".into();
+    run.rule = "WithRate / WithOneOverLength on Vec<TagBit>, Vector<TagBit>, Bitstring and through Mutate; Umad (new / new_with_empty_rate / new_without_empty) on Vector<Gene>, Plushy and Bitstring, through &, by value and through Mutate; all parent lengths 0..L, all lattice rates, all grid word sequences, and (lengths <= 3 for flips, <= 2 for UMAD) all sequences over the grid plus the extreme words 0 and all-ones; structural oracle on every leaf (positions preserved, subsequence order, at most one insertion per parent position, provenance of new genes, boundary rates). non-trivial = scenarios with more than one distinct output".into();
     run.bound("max_parent_length", json!(if run.quick() { 3 } else { 4 }));
     run.bound("rates", json!(if run.quick() { "{0, 1/2, 1, 2}" } else { "{0, 1/4, 1/2, 3/4, 1, 2}" }));
     run.assumptions = vec!["structure is rate independent: lattice rates reach both outcomes of every coin".into()];
